@@ -645,6 +645,77 @@ func checkC11(e *Engine, r *Report) {
 		r.Check(okV && okH && okE, "VerifySignature › match = (recover(hash(tm, chainId), sig) == expected)", e.Pos(vs.Pos()), "Ecrecover over EIP712HashingTypedMessage(tm, chainId); match = recovered == expectedAddress", "the signature check does not compare the address recovered over the typed-data hash for this chain id with the expected address")
 	})
 
+	r.Rule("R8", "CENSUS+MUST-PASS", "what was signed is what is executed: every field of the signed StakingMessage either flows into the native message built by the by-action executor, or is bound to the value that does by an (in)equality test in Validate whose failing edge returns an error (Denom ↔ the staking bond denomination that the executor puts into the coin); Validate's error gates the action", 7, func() {
+		pkgAbi := EV + "/x/cpc/abi"
+		smN := e.Named(pkgAbi, "StakingMessage")
+		val := e.Fn(pkgAbi, "StakingMessage.Validate")
+		var ex *ssa.Function
+		for _, x := range rw {
+			if strings.HasSuffix(x.Name(), "DelegateByActionMessage") {
+				ex = x.Execute
+			}
+		}
+		if ex == nil {
+			r.Undec("signed fields › executor", "", "the by-action-message executor was not found")
+			return
+		}
+		// Validate(…, bondDenom) is called with the bond denomination of the staking keeper and its error stops the executor
+		vcs := callsIn(ex, false, func(c ssa.CallInstruction) bool { return c.Common().StaticCallee() == val })
+		okCall := len(vcs) == 1
+		var bondV ssa.Value
+		if okCall {
+			a := vcs[0].Common().Args
+			bondV = resolveLocal(a[len(a)-1])
+			okCall = sliceFrom(bondV).Has(func(v ssa.Value) bool { c, ok := v.(*ssa.Call); return ok && isMethodNamed(c, "BondDenom") }) && errorPropagated(ex, vcs[0], nil)
+			helpers := callsIn(ex, false, func(c ssa.CallInstruction) bool { _, ok := stakingHelpers[helperKey(c)]; return ok })
+			for _, h := range helpers {
+				if !dominatesInstr(vcs[0].(ssa.Instruction), h.(ssa.Instruction)) {
+					okCall = false
+				}
+			}
+		}
+		r.Check(okCall, "signed fields › Validate(codec, BondDenom(ctx)) gates the action", e.Pos(ex.Pos()), "error returned before any effect", "the signed message is not validated against the staking bond denomination before acting")
+		st := smN.Underlying().(*types.Struct)
+		for i := 0; i < st.NumFields(); i++ {
+			f := st.Field(i)
+			key := "signed fields › StakingMessage." + f.Name()
+			// (i) read by the executor and flowing into an effect-helper argument or a guard
+			used := false
+			for _, h := range callsIn(ex, false, func(c ssa.CallInstruction) bool { _, ok := stakingHelpers[helperKey(c)]; return ok }) {
+				for _, a := range h.Common().Args {
+					if sliceFrom(a).Has(func(v ssa.Value) bool { return fieldVar(v) == f }) {
+						used = true
+					}
+				}
+			}
+			if f.Name() == "Action" {
+				for _, i2 := range ifs(ex) {
+					if sliceFrom(i2.Cond).Has(func(v ssa.Value) bool { return fieldVar(v) == f }) {
+						used = true // selects the helper
+					}
+				}
+			}
+			// (ii) bound by an equality test in Validate against a parameter, failing edge returns an error, dominating success
+			bound := false
+			if !used {
+				gs := eqGuards(val, true, func(v ssa.Value) bool { return fieldVar(v) == f || (func() bool { u, ok := v.(*ssa.UnOp); return ok && fieldVar(u.X) == f })() }, func(v ssa.Value) bool { _, isP := resolveLocal(v).(*ssa.Parameter); return isP })
+				var conf []Guard
+				for _, g := range gs {
+					if failEdgeReturnsError(val, g, nil) {
+						conf = append(conf, g)
+					}
+				}
+				bound = len(conf) > 0
+				for _, ret := range successReturns(val) {
+					if !mustPass(val, ret, conf) {
+						bound = false
+					}
+				}
+			}
+			r.Check(used || bound, key, e.Pos(f.Pos()), map[bool]string{true: "flows into the native message", false: "bound by an equality test in Validate"}[used], "the signed field "+f.Name()+" neither reaches the native message nor is tested against the value that does: a message signed for one "+strings.ToLower(f.Name())+" is executed with another (the executor fills in its own value)")
+		}
+	})
+
 	r.Rule("R7", "EFFECT", "views mirror native queries, which change nothing: no read-only staking executor reaches a store write, event or log over the call graph — in particular the distribution querier's period increment stays on a discarded cache context (a view that closes a validator's reward period changes every later reward through the 18-decimal truncation; shared with C12-R2)", 5, func() {
 		ee := e.Effects()
 		n := 0
